@@ -463,10 +463,12 @@ structure LayoutFacts (w : World) (L : Layout) : Prop where
   vol : L.volSectors = L.volumeSize + L.padSectors
   fits : L.volumeSize + 2 * Gen.fs_basePadSectors ≤ maxSector
   pad : L.padSectors = padSectorsFor L.volumeSize
+  dirs : L.items.length ≤ Gen.fs_pathTableItemsLimit
 
 theorem layoutOf_facts (w : World) (root : Path) (ps3 : Bool) (L : Layout) (h : layoutOf w root ps3 = some L) :
     LayoutFacts w L := by
-  have hfit := (layoutOf_some h).2
+  have hfit := (layoutOf_some h).2.1
+  have hdirs := (layoutOf_some h).2.2
   have h := (layoutOf_some h).1
   unfold layoutRaw at h
   split at h
@@ -478,7 +480,7 @@ theorem layoutOf_facts (w : World) (root : Path) (ps3 : Bool) (L : Layout) (h : 
       · rename_i items fsec hscan
         cases h
         exact ⟨gameCodeOf_len w root ps3 gc hgc, rfl, rfl, rfl, rfl, rfl,
-          ⟨fsec, scan_ok w _ _ [] 0 items fsec rfl hscan, rfl⟩, rfl, hfit, rfl⟩
+          ⟨fsec, scan_ok w _ _ [] 0 items fsec rfl hscan, rfl⟩, rfl, hfit, rfl, hdirs⟩
   · cases h
 
 theorem metaBytes_length (w : World) (L : Layout) (F : LayoutFacts w L) (ps3 : Bool) (clk : Clock) (filler : Bytes) :
